@@ -8,7 +8,9 @@ props = sorted(f[:-3] for f in os.listdir(V + "/rules") if re.match(r"C\d+\.py$"
 head = subprocess.check_output(["git", "-C", "/repo", "rev-parse", "HEAD"], text=True).strip()
 subprocess.run(["git", "-C", W, "checkout", "-q", "--detach", head])
 bad = 0
-for patch in sys.argv[1:]:
+import glob
+patches = sys.argv[1:] or sorted(glob.glob(V + "/benign/*/patch.diff"))     # default: the whole kept corpus
+for patch in patches:
     subprocess.run(["git", "-C", W, "checkout", "-q", "--", "."])
     if subprocess.run(["git", "-C", W, "apply", patch]).returncode != 0:
         print(patch, "DOES NOT APPLY")
@@ -22,7 +24,7 @@ for patch in sys.argv[1:]:
         if r.returncode != 0:
             keys = re.findall(r"^  \S+ (\S+?:.*) at ", r.stdout, flags=re.M)
             fired.append((pr, [k[:170] for k in keys[:4]], "BROKEN" if "CHECKER-BROKEN" in r.stdout else ""))
-    name = "/".join(patch.split("/")[-4:-1])
+    name = "/".join(patch.split("/")[-4:-1]) if "/out/" in patch else patch.split("/")[-2]
     print(name, "SILENT" if not fired else "ALARM", flush=True)
     for f in fired:
         print("    ", f, flush=True)
